@@ -53,7 +53,15 @@ def run_harness(sub, scenarios, timeout=1200):
             done = set(got)
             pending = [s for s in pending if s["id"] not in done]
             continue
-        raise vlib.CheckError("%s harness failed rc=%d: %s" % (sub, p.returncode, p.stderr[-2000:]))
+        # the harness process died (a panic in a member's goroutine kills the in-process cluster): the scenario it was
+        # running is the first one without a result; it is recorded as panicked and the rest is run in a new process
+        done = set(got)
+        rest = [s for s in pending if s["id"] not in done]
+        if not rest or "panic" not in (p.stderr or "") and "fatal error" not in (p.stderr or ""):
+            raise vlib.CheckError("%s harness failed rc=%d: %s" % (sub, p.returncode, p.stderr[-2000:]))
+        tail = [l for l in (p.stderr or "").splitlines() if l.startswith("panic:") or l.startswith("fatal error:")]
+        results[rest[0]["id"]] = {"id": rest[0]["id"], "obs": [["panic", "the member process died while it ran this scenario: %s" % (tail[0] if tail else p.stderr[-300:])]]}
+        pending = rest[1:]
     return results
 
 
